@@ -270,6 +270,7 @@ class SimFS:
         self.open_handles = set()
         self.plan = FaultPlan()
         self.bufsize = io.DEFAULT_BUFFER_SIZE
+        self.text_chunk = None
         self.disk_full = False
         self.stats = Counter()
         self.faults_fired = Counter()
@@ -298,9 +299,10 @@ class SimFS:
             return os.path.relpath(ap, self.root)
         return None
 
-    def begin_step(self, plan, bufsize):
+    def begin_step(self, plan, bufsize, text_chunk=None):
         self.plan = plan
         self.bufsize = bufsize
+        self.text_chunk = text_chunk
         self.disk_full = False
         self.opens_seen = 0
 
@@ -374,6 +376,10 @@ class SimFS:
             return buf
         wrapper = io.TextIOWrapper(buf, encoding, errors, newline, line_buffering)
         wrapper.mode = mode
+        if self.text_chunk:
+            # tuning knob: how many characters the text layer batches before it
+            # hands bytes to the buffered layer (CPython's own test hook)
+            wrapper._CHUNK_SIZE = max(1, int(self.text_chunk))
         return wrapper
 
     def remove(self, path, *a, **k):
@@ -602,9 +608,10 @@ class World:
 
     @contextmanager
     def step(self, pyseed=0, npseed=0, fs_plan=None, bufsize=None, solver_script=None,
-             use_fs=True):
+             use_fs=True, text_chunk=None):
         """Context for ONE operation of the system under test."""
-        self.fs.begin_step(FaultPlan(fs_plan or ()), bufsize or io.DEFAULT_BUFFER_SIZE)
+        self.fs.begin_step(FaultPlan(fs_plan or ()), bufsize or io.DEFAULT_BUFFER_SIZE,
+                           text_chunk)
         self.solver.begin_step(solver_script)
         self.rng.seed(pyseed, npseed)
         if use_fs:
